@@ -6,6 +6,8 @@
 (* specification recomputes them when it validates what the real store did. *)
 (*  Mode "reply":  add-authoritative / add-cached / remove / clear and      *)
 (*                 build_reply queries (1-2 questions, every QTYPE/QCLASS)  *)
+(*  Mode "matrix": one registered record x every QTYPE x QCLASS {IN,CH,ANY} *)
+(*                 at the record's own name and at its parent               *)
 (*  Mode "expiry": the same operations with TTLs {0,1,2,1000} and the       *)
 (*                 cache-flush bit, sleeps of 300..1200 ms, and store       *)
 (*                 queries with the authoritative / cached / all filters    *)
@@ -33,7 +35,10 @@ Catalogue ==
   \cup {Rec(<<Mysrv, Local>>, 33, 1, <<<<0, 0>>, <<0, 0>>, <<0, 80>>, t>>) : t \in {<<A1, Mysrv, Local>>, <<Foobar>>}}
   \cup {Rec(<<Mysrv, Local>>, 12, 1, <<<<A1, Mysrv, Local>>>>), Rec(<<Foo, Bar>>, 16, 1, <<<<<<120>>>>>>),
         Rec(<<Foobar>>, 16, 3, <<<<<<121>>>>>>), Rec(<<Foo, Bar>>, 8, 1, <<<<Bar>>>>), Rec(<<Bar>>, 15, 1, <<<<0, 5>>, <<Foo, Bar>>>>),
-        Rec(<<My, Local>>, 1, 4, <<<<10, 9, 9, 9>>>>)}
+        Rec(<<My, Local>>, 1, 4, <<<<10, 9, 9, 9>>>>),
+        \* the rest of the mailbox family (MAILB = MB, MG, MR; MAILA = MX) and a type with two names
+        Rec(<<Foo, Bar>>, 7, 1, <<<<Foobar>>>>), Rec(<<Foo, Bar>>, 9, 1, <<<<Bar>>>>), Rec(<<Foobar>>, 9, 1, <<<<Foo, Bar>>>>),
+        Rec(<<Bar>>, 14, 1, <<<<A1, Mysrv, Local>>, <<Foobar>>>>)}
 
 \* expiry mode works on a handful of records so that the same record is received again and again
 ExpiryCat == {r \in Catalogue : r.type = 1 /\ r.rd = <<<<10, 0, 0, 1>>>> /\ r.name \in {<<Mysrv, Local>>, <<A1, Mysrv, Local>>, <<Foobar>>}}
@@ -42,7 +47,23 @@ ExpiryNames == {r.name : r \in ExpiryCat}
 
 VARIABLES hist, n, done
 vars == <<hist, n, done>>
-Init == hist = <<>> /\ n = 0 /\ done = FALSE
+\* Mode "matrix": one registered record, asked about with every question type and class at its own name
+\* and at its parent (bounded-exhaustive single-record x question matrix)
+AllQTypes == (SupportedTypes \ {41}) \cup QTypeSpecials
+RECURSIVE SetSeq(_)
+SetSeq(S0) == IF S0 = {} THEN <<>> ELSE LET m == CHOOSE x \in S0 : \A y \in S0 : x <= y IN <<m>> \o SetSeq(S0 \ {m})
+MatrixHist(r) ==
+  LET qts == SetSeq(AllQTypes)
+      names == <<r.name, IF r.name = <<>> THEN <<>> ELSE Tail(r.name)>>
+      cell(k) == LET ni == ((k - 1) \div (3 * Len(qts))) + 1
+                     rest == (k - 1) % (3 * Len(qts))
+                     qt == qts[(rest \div 3) + 1]
+                     qc == <<1, 3, 255>>[(rest % 3) + 1] IN
+                 [op |-> "reply", id |-> 7, qd |-> <<[name |-> names[ni], qtype |-> qt, qclass |-> qc, unicast |-> FALSE]>>] IN
+  <<[op |-> "add_auth", rec |-> r]>> \o [k \in 1 .. (2 * 3 * Len(qts)) |-> cell(k)]
+
+Init == IF Mode = "matrix" THEN \E r \in Catalogue : hist = MatrixHist(r) /\ n = 0 /\ done = TRUE
+        ELSE hist = <<>> /\ n = 0 /\ done = FALSE
 
 TtlBytes(t) == <<0, 0, (t \div 256) % 256, t % 256>>
 \* half of the time draw from the SRV neighbourhood (SRV records, address records at, below and above
